@@ -271,7 +271,16 @@ def oracle_C08(meta, kw, res):
                                  if all(v == v and abs(v) != math.inf for v in yy)])
             for te_, ye_ in zip(tev, yev):
                 g = eval_expr(expr, te_, ye_)
-                if g == g and abs(g) > 1e-6 * scale:
+                # what a displacement of the root-finder's time tolerance changes in g along the solution here (stiff
+                # problems have slopes far above 1e5: y' = -1e10 (y - ...) crossing a level within 1e-10 time units)
+                tau = 4 * 2.0 ** -52 * abs(te_) + 2e-12
+                fe = [eval_expr(fx, te_, ye_) for fx in kw["prob"]["f"]]
+                along = 0.0
+                for sg in (1.0, -1.0):
+                    gg = eval_expr(expr, te_ + sg * tau, [a + sg * tau * b for a, b in zip(ye_, fe)])
+                    if gg == gg and abs(gg) != math.inf:
+                        along = max(along, abs(gg - g))
+                if g == g and abs(g) > 1e-6 * scale + 4.0 * along:
                     out.append(("event-not-a-root", "event %d reported at t=%r where g = %r (scale of g over the run %.3g): not a root of the event function" % (i, te_, g, scale)))
                     break
         except (ValueError, IndexError):
